@@ -121,6 +121,11 @@ class SimClock:
         self.fail_next = None   # exception the next read raises
         self.raised = None      # ... and the one that was raised
         self.hook = None        # called once by the next read
+        # the simulated wall clock behind the date: local time of day and
+        # the offset of local time from UTC (only code that asks for a
+        # datetime or for UTC can tell)
+        self.hour = 12
+        self.utc_offset = _dt.timedelta(0)
 
     def fail(self, exc: BaseException):
         self.fail_next = exc
@@ -198,4 +203,80 @@ def install_date_shim(clock: SimClock):
         fromisocalendar = staticmethod(real.fromisocalendar)
 
     qm.date = date
+    _install_datetime_shim(qm, clock, date)
     return date
+
+
+def _install_datetime_shim(qm, clock, date_shim):
+    """Should the module (after some refactoring) read the time through
+    other names - the class `datetime`, the module `datetime`, the module
+    `time` - these read the simulated clock, too: local wall time is
+    clock() at clock.hour, UTC is clock.utc_offset behind it."""
+    import types
+    real_dt = _dt.datetime
+
+    def local_now():
+        return real_dt.combine(clock(), _dt.time(clock.hour, 17, 5))
+
+    class _MetaDT(type):
+        def __instancecheck__(cls, obj):
+            return isinstance(obj, real_dt)
+
+        def __subclasscheck__(cls, sub):
+            return issubclass(sub, real_dt)
+
+    class datetime(metaclass=_MetaDT):     # noqa: N801
+        min, max, resolution = real_dt.min, real_dt.max, real_dt.resolution
+
+        def __new__(cls, *a, **kw):
+            return real_dt(*a, **kw)
+
+        @staticmethod
+        def now(tz=None):
+            if tz is None:
+                return local_now()
+            utc = (local_now() - clock.utc_offset).replace(
+                tzinfo=_dt.timezone.utc)
+            return utc.astimezone(tz)
+
+        @staticmethod
+        def today():
+            return local_now()
+
+        @staticmethod
+        def utcnow():
+            return local_now() - clock.utc_offset
+
+        fromisoformat = staticmethod(real_dt.fromisoformat)
+        fromtimestamp = staticmethod(real_dt.fromtimestamp)
+        fromordinal = staticmethod(real_dt.fromordinal)
+        combine = staticmethod(real_dt.combine)
+        strptime = staticmethod(real_dt.strptime)
+
+    have = getattr(qm, 'datetime', None)
+    if isinstance(have, type):
+        qm.datetime = datetime
+    elif isinstance(have, types.ModuleType):
+        ns = types.SimpleNamespace(**{k: getattr(_dt, k) for k in dir(_dt)
+                                      if not k.startswith('__')})
+        ns.date, ns.datetime = date_shim, datetime
+        qm.datetime = ns
+    have = getattr(qm, 'time', None)
+    if isinstance(have, types.ModuleType):
+        import time as _time
+        ns = types.SimpleNamespace(**{k: getattr(_time, k)
+                                      for k in dir(_time)
+                                      if not k.startswith('__')})
+
+        def now_epoch():
+            utc = (local_now() - clock.utc_offset).replace(
+                tzinfo=_dt.timezone.utc)
+            return utc.timestamp()
+        ns.time = now_epoch
+        ns.time_ns = lambda: int(now_epoch() * 10 ** 9)
+        ns.localtime = lambda t=None: (
+            local_now().timetuple() if t is None else _time.localtime(t))
+        ns.gmtime = lambda t=None: (
+            (local_now() - clock.utc_offset).timetuple() if t is None
+            else _time.gmtime(t))
+        qm.time = ns
